@@ -676,6 +676,107 @@ func udpSequence(r *hx.Rand, svc string, n int) Input {
 	return Input{Svc: svc, Stream: all, Cuts: cuts, Mode: "one-source-sequence"}
 }
 
+
+// ---- tftp uploads: sequences of datagrams from ONE address (ip and port), at most four ----
+func tftpWRQ(name, mode string) []byte { return []byte("\x00\x02" + name + "\x00" + mode + "\x00") }
+func tftpRRQ(name string) []byte      { return []byte("\x00\x01" + name + "\x00octet\x00") }
+func tftpDATA(blk int, data string) []byte {
+	return append([]byte{0, 3, byte(blk >> 8), byte(blk)}, data...)
+}
+
+func seqOf(svc string, ds ...[]byte) Input {
+	var all []byte
+	var cuts []int
+	for _, d := range ds {
+		all = append(all, d...)
+		cuts = append(cuts, len(d))
+	}
+	return Input{Svc: svc, Stream: all, Cuts: cuts, Mode: "one-source-sequence"}
+}
+
+func tftpUploads(r *hx.Rand) []Input {
+	full := func(c string) string { return strings.Repeat(c, 512) }
+	short := func(tag string) string { return "tail-of-" + tag + strings.Repeat("z", r.Range(0, 100)) }
+	return []Input{
+		seqOf("tftp-seq", tftpWRQ("first.bin", "octet"), tftpDATA(1, full("A")), tftpDATA(2, short("first"))),
+		// a second write request while an upload is open
+		seqOf("tftp-seq", tftpWRQ("first.bin", "octet"), tftpDATA(1, full("A")), tftpWRQ("second.txt", "netascii"), tftpDATA(1, short("second"))),
+		seqOf("tftp-seq", tftpWRQ("a", "octet"), tftpWRQ("b", "mail"), tftpDATA(1, short("b"))),
+		// a read request in between
+		seqOf("tftp-seq", tftpWRQ("up.img", "octet"), tftpRRQ("down.img"), tftpDATA(1, short("up"))),
+		// DATA without a write request; an empty last block; a block of exactly 512 then nothing
+		seqOf("tftp-seq", tftpDATA(1, short("orphan")), tftpWRQ("late", "octet"), tftpDATA(1, "")),
+		seqOf("tftp-seq", tftpWRQ("exact", "octet"), tftpDATA(1, full("E")), tftpDATA(2, "")),
+		seqOf("tftp-seq", tftpWRQ("two", "octet"), tftpDATA(1, short("one")), tftpWRQ("two", "octet"), tftpDATA(1, short("two"))),
+		seqOf("tftp-seq", tftpWRQ("cut", "octet"), []byte{0, 3}, []byte{0, 3, 0}, tftpDATA(9, short("cut"))),
+	}
+}
+
+// ---- datagram sizes: a recognisable command/marker at the END of the datagram ----
+var dgramSizes = []int{1, 2, 512, 4095, 4096, 4097, 8192, 65507}
+
+func sizedDatagrams(r *hx.Rand) []Input {
+	var out []Input
+	pad := func(n int, c byte) string {
+		if n < 0 {
+			n = 0
+		}
+		return strings.Repeat(string(c), n)
+	}
+	for _, n := range dgramSizes {
+		// memcached: header, a long first command, the marker command at the very end
+		end := "get marker-at-the-end\r\n"
+		if n >= 8+len(end)+8 {
+			d := "\x00\x01\x00\x00\x00\x01\x00\x00" + "get " + pad(n-8-len(end)-6, 'k') + "\r\n" + end
+			out = append(out, Input{Svc: "memcached-udp", Stream: []byte(d), Mode: "datagram"})
+			// many short commands up to the size
+			d2 := "\x00\x02\x00\x00\x00\x01\x00\x00"
+			for i := 0; len(d2)+12+len(end) <= n; i++ {
+				d2 += fmt.Sprintf("get k%05d\r\n", i)
+			}
+			d2 += pad(n-len(d2)-len(end), ' ') + end
+			// (more than four commands: the reply limiter ends the datagram - known finding -
+			// so this one is a one-datagram sequence case, which carries the token count)
+			out = append(out, seqOf("memcached-udp-seq", []byte(d2)))
+		} else {
+			out = append(out, Input{Svc: "memcached-udp", Stream: []byte(pad(n, 'x')), Mode: "datagram"})
+		}
+		// tftp: the mode string ends the datagram
+		if n >= 12 {
+			d := "\x00\x01" + pad(n-2-1-6, 'f') + "\x00octet\x00"
+			out = append(out, Input{Svc: "tftp", Stream: []byte(d), Mode: "datagram"})
+			d = "\x00\x02name\x00" + pad(n-2-5-1, 'm') + "\x00"
+			out = append(out, Input{Svc: "tftp", Stream: []byte(d), Mode: "datagram"})
+		} else {
+			out = append(out, Input{Svc: "tftp", Stream: []byte(pad(n, '\x00')), Mode: "datagram"})
+		}
+		// counterstrike: the handler looks at the first 1024 bytes
+		if n >= 5 {
+			out = append(out, Input{Svc: "counterstrike", Stream: []byte("\xff\xff\xff\xffT" + pad(n-5-3, 'p') + "END"[:minInt(3, n-5)]), Mode: "datagram"})
+		}
+		// dns: a query padded with further questions up to the size (a question is 4+name bytes)
+		q := dnsQuery(0x4000+n%1000, "first.example.org")
+		if n >= len(q) {
+			cnt := 1
+			for len(q)+9 <= n && cnt < 60000 {
+				q = append(q, 3, 'p', 'a', 'd', 0, 0, 1, 0, 1)
+				cnt++
+			}
+			q[4], q[5] = byte(cnt>>8), byte(cnt)
+			out = append(out, Input{Svc: "dns", Stream: q, Mode: "datagram"})
+		}
+	}
+	// snmp messages are at most 129 bytes in the short form the service understands: sizes around it
+	for _, l := range []int{1, 60, 100, 105} {
+		b, err := snmp.Asn1Context().Encode(snmp.Message{Version: 0, Community: strings.Repeat("c", l), Pdu: snmp.GetRequestPdu(snmp.Pdu{Identifier: 7,
+			Variables: []snmp.Variable{{Name: asn1.Oid{1, 3, 6, 1, 2, 1, 1, 1, 0}, Value: asn1.Null{}}}})})
+		if err == nil {
+			out = append(out, Input{Svc: "snmp", Stream: b, Mode: "datagram"})
+		}
+	}
+	return out
+}
+
 // ---- segmentations ----
 func (s stream) input(mode string, cuts []int, waits []int) Input {
 	return Input{Svc: s.svc, Stream: s.bytes(), Cuts: cuts, Waits: waits, Mode: mode}
@@ -899,6 +1000,9 @@ func generate(r *hx.Rand, tier string) []Input {
 	for _, svc := range []string{"tftp-seq", "memcached-udp-seq", "counterstrike-seq", "snmp-seq", "dns-seq"} {
 		ins = append(ins, udpSequence(r, svc, 12), udpSequence(r, svc, 3), udpSequence(r, svc, 6))
 	}
+
+	ins = append(ins, tftpUploads(r)...)
+	ins = append(ins, sizedDatagrams(r)...)
 
 	perSvc, sample, nudp := 4, 10, 60
 	if tier == "thorough" {
